@@ -104,6 +104,12 @@ pub mod pegc {
     /// predicates whose operand mutates the stack: PUSH(a) ~ &(POP ~ PUSH(b)) ~ !(DROP ~ "c") ~ POP
     pub type GPredMut<'i> = Seq4<S0<Push<A>>, S0<Positive<Seq2<S0<POP<'i>>, S0<Push<B>>>>>, S0<Negative<Seq2<S0<DROP>, S0<Str<LC>>>>>, S0<POP<'i>>>;
     pub type XPredMut = RSeq4<RPush<RStr<LA>>, RPos<RSeq2<RPop, RPush<RStr<LB>>, RNoSkip, 0>>, RNeg<RSeq2<RDrop, RStr<LC>, RNoSkip, 0>>, RPop, RNoSkip, 0>;
+    /// a repetition that fails BELOW its minimum after its iterations (and the attempt around it) changed the stack, inside a
+    /// choice arm that must be undone as a whole: ((PUSH(a) ~ (PUSH(b) ~ "c"){2,}) | a) ~ PEEK_ALL   and the same with {2,3}
+    pub type GRepMinFail<'i> = Seq2<S0<Choice2<Seq2<S0<Push<A>>, S0<RepMin<Seq2<S0<Push<B>>, S0<Str<LC>>>, WS, 0, 2>>>, A>>, S0<PEEK_ALL<'i>>>;
+    pub type XRepMinFail = RSeq2<RChoice2<RSeq2<RPush<RStr<LA>>, RRep<RSeq2<RPush<RStr<LB>>, RStr<LC>, RNoSkip, 0>, RNoSkip, 0, 2, { usize::MAX }>, RNoSkip, 0>, RStr<LA>>, RPeekAll, RNoSkip, 0>;
+    pub type GRepMMFail<'i> = Seq2<S0<Choice2<Seq2<S0<Push<A>>, S0<RepMinMax<Seq2<S0<Push<B>>, S0<Str<LC>>>, WS, 0, 2, 3>>>, A>>, S0<PEEK_ALL<'i>>>;
+    pub type XRepMMFail = RSeq2<RChoice2<RSeq2<RPush<RStr<LA>>, RRep<RSeq2<RPush<RStr<LB>>, RStr<LC>, RNoSkip, 0>, RNoSkip, 0, 2, 3>, RNoSkip, 0>, RStr<LA>>, RPeekAll, RNoSkip, 0>;
     /// nested repetition with optional and SOI/EOI: SOI ~ (a{1,2} ~ b?)* ~ EOI (skips between everything)
     pub type GNest = Seq3<S1<SOI>, S1<RepMin<Seq2<S1<RepMinMax<A, WS, 1, 1, 2>>, S1<Option<B>>>, WS, 1, 0>>, S1<EOI>>;
     pub type XNest = RSeq3<RSoi, RRep<RSeq2<RRep<RStr<LA>, RWS, 1, 1, 2>, ROpt<RStr<LB>>, RWS, 1>, RWS, 1, 0, { usize::MAX }>, REoi, RWS, 1>;
